@@ -96,6 +96,27 @@ def strategy(tier):
     })
 
 
+def enumerate_cases(tier):
+    """the user looks at every statistic during a pause before the warm-up, and again at the end - when the
+    statistics hold as many observations as they held at the pause"""
+    cases = []
+    for ck, T, D in (("float", lambda x: fx(float(x)), lambda x: fx(float(x))), ("int", int, int)):
+        for k in (3, 4):
+            vals = [1.0, 2.0, 10.0, 4.5][:k]
+            post = [3.0, 5.0, 4.0, 12.5][:k]
+            nodes = []
+            for i, v in enumerate(vals + post):
+                nodes.append([["obs_t", fx(v)], ["obs_p", fx(v + 1.0)], ["obs_c", i + 1],
+                              ["obs_w", fx(1.0 + i), fx(v * 2.0)]])
+            root = [["abs_t", T(1 + i), i, 5] for i in range(k)] + [["abs_t", T(11 + i), k + i, 5] for i in range(k)]
+            prog = {"clock": ck, "cap": 40, "rep": {"start": T(0), "warmup": T(8), "length": T(20)},
+                    "root": root, "nodes": nodes}
+            cases.append({"prog": prog, "drive": "excl", "k": 1, "cuts": [3], "subscribe": False, "reinit": None,
+                          "other_model": None, "container_model": False, "one_shot_listeners": False,
+                          "same_rep_object": False, "inspect": True})
+    return cases
+
+
 # which getter a published StatEvents value must equal
 def _event_getters():
     from pydsol.core.interfaces import StatEvents as E
@@ -354,6 +375,11 @@ def run_case(case):
             errs.append(h.run_piece(["run_up_to", _jt(b, ck)]))
             far = r2.end + (7 if ck == "int" else 12.5)
             errs.append(h.run_piece(["run_up_to" if drive == "beyond" else "run_up_to_incl", _jt(far, ck)]))
+        if case.get("inspect"):
+            # the user reads every getter of every statistic during the pause (reading changes nothing)
+            for st_ in list(h.model.stats.values()) + list(h.model.twins.values()):
+                stoch.stat_digest(st_)
+            out.label("statistics-read-during-a-pause-before-warm-up")
         from pydsol.core.simulator import RunState
         if case.get("other_model"):
             # another model (own simulator, statistics under the same keys) is initialised (and run) in the same
